@@ -721,7 +721,11 @@ func ruleC18(c *Ctx) {
 			case "return":
 				acc++
 				c.check(known && errNil, "C18-R2", fname, "UUID returned only when the read succeeded", c.P.InstrPos(t.Instr), "err == nil", "NewV4 returns a UUID although the random read's error is ignored")
-				c.check(arr != nil && t.Vals[0].Key() == arr.Key(), "C18-R2", fname, "returns the array that was filled", c.P.InstrPos(t.Instr), "fresh array", "returns "+ap(t.Vals[0]))
+				same := arr != nil && t.Vals[0].Key() == arr.Key()
+				if !same && arr != nil {
+					same = wholeCopyOf(t, t.Vals[0], arr)
+				}
+				c.check(same, "C18-R2", fname, "returns the array that was filled", c.P.InstrPos(t.Instr), "the filled array, or a whole copy of it taken after the last write", "returns "+ap(t.Vals[0]))
 				// R3: stores after the read
 				stored := map[int64]Val{}
 				for _, e := range t.St.events {
@@ -864,6 +868,67 @@ func uuidLayout(t *Terminal, recv string) (string, string) {
 	v := t.Vals[0]
 	switch x := v.(type) {
 	case *CallV:
+		if sn := shortName(x.Callee); (sn == "(*strings.Builder).String" || sn == "(*bytes.Buffer).String") && len(x.Args) == 1 {
+			// a writer filled piece by piece: constant bytes / strings, Fprintf("%x", u[a:b]), WriteString(hex.EncodeToString(u[a:b]))
+			sb := x.Args[0]
+			var segs []laySeg
+			lit := func(s string) {
+				for i := 0; i < len(s); i++ {
+					segs = append(segs, laySeg{lit: true, ch: s[i]})
+				}
+			}
+			for _, e := range t.St.events {
+				if e.Kind != EvCall || len(e.Args) == 0 || stripIface(e.Args[0]).Key() != sb.Key() {
+					continue
+				}
+				en := shortName(e.Callee)
+				switch {
+				case strings.HasSuffix(en, ").WriteByte") || strings.HasSuffix(en, ").WriteRune"):
+					k, isC := constInt(e.Args[1])
+					if !isC || k <= 0 || k > 127 {
+						return "", "non-constant byte written to the text"
+					}
+					lit(string(rune(k)))
+				case strings.HasSuffix(en, ").WriteString"):
+					if s, isC := constString(e.Args[1]); isC {
+						lit(s)
+					} else if cv, ok := e.Args[1].(*CallV); ok && cv.Callee == "encoding/hex.EncodeToString" {
+						lo, hi, ok := sliceOfU(cv.Args[0], recv)
+						if !ok {
+							return "", "operand " + ap(cv.Args[0]) + " is not a constant slice of the UUID"
+						}
+						segs = append(segs, laySeg{lo: lo, hi: hi})
+					} else {
+						return "", "unrecognised text " + ap(e.Args[1])
+					}
+				case en == "fmt.Fprintf":
+					f, isC := constString(e.Args[1])
+					if !isC || f != "%x" {
+						return "", "Fprintf format other than %x"
+					}
+					var args []Val
+					if sl, ok := e.Args[2].(*SliceV); ok {
+						if arr, ok := sl.X.(*AllocV); ok {
+							if cl, ok := t.St.heap[mkIndexAddr(arr, intV(0), nil).Key()]; ok {
+								args = append(args, cl.val)
+							}
+						}
+					}
+					if len(args) != 1 {
+						return "", "Fprintf operand not found"
+					}
+					lo, hi, ok := sliceOfU(args[0], recv)
+					if !ok {
+						return "", "operand " + ap(args[0]) + " is not a constant slice of the UUID"
+					}
+					segs = append(segs, laySeg{lo: lo, hi: hi})
+				case strings.HasSuffix(en, ").String"), strings.HasSuffix(en, ").Len"), strings.HasSuffix(en, ").Grow"):
+				default:
+					return "", "writer also used by " + en
+				}
+			}
+			return renderLayout(segs), ""
+		}
 		if x.Callee != "fmt.Sprintf" {
 			break
 		}
@@ -1174,15 +1239,12 @@ func ruleC16(c *Ctx) {
 				c.bad("C16-R2", fname, "template parses ["+label+"]", c.P.InstrPos(exec.Instr), "template does not parse: "+err.Error())
 				continue
 			}
-			// data struct (by value or through a pointer)
+			// template data: a struct (by value or through a pointer, promoted fields of embedded structs included) or a
+			// map[string]string literal — what html/template resolves ".Name" against
 			data := stripIface(exec.Args[2])
-			dataT := data.Type()
-			if pt, isPtr := dataT.Underlying().(*types.Pointer); isPtr {
-				dataT = pt.Elem()
-			}
-			dst, _ := dataT.Underlying().(*types.Struct)
-			if dst == nil {
-				c.bad("C16-R2", fname, "template data is a struct ["+label+"]", c.P.InstrPos(exec.Instr), "data is "+typeStr(data.Type()))
+			dm, dmOK := templateData(t, data)
+			if !dmOK {
+				c.bad("C16-R2", fname, "template data is a struct ["+label+"]", c.P.InstrPos(exec.Instr), "data is "+typeStr(data.Type())+": neither a struct of strings nor a map[string]string literal")
 				continue
 			}
 			want := map[string]bool{"URL": true, ps.B64Field: true}
@@ -1196,12 +1258,11 @@ func ruleC16(c *Ctx) {
 					continue
 				}
 				seen[f] = true
-				idx := fieldIndex(dataT, f)
-				if idx < 0 {
-					c.bad("C16-R2", fname, "template field ."+f+" exists in the data ["+label+"]", c.P.InstrPos(exec.Instr), "template references ."+f+" which the data struct lacks: Execute fails at run time on this path")
+				ft, has := dm.Types[f]
+				if !has {
+					c.bad("C16-R2", fname, "template field ."+f+" exists in the data ["+label+"]", c.P.InstrPos(exec.Instr), "template references ."+f+" which the data lacks: Execute fails (struct) or renders nothing (map) on this path")
 					continue
 				}
-				ft := typeStr(dst.Field(idx).Type())
 				c.check(ft == "string", "C16-R2", fname, "template field ."+f+" is a plain string ["+label+"]", c.P.InstrPos(exec.Instr), "string", "field ."+f+" has type "+ft+": typed content bypasses html/template's escaper")
 				c.check(want[f], "C16-R2", fname, "template field ."+f+" expected ["+label+"]", c.P.InstrPos(exec.Instr), "in table", "unexpected action ."+f)
 			}
@@ -1222,20 +1283,8 @@ func ruleC16(c *Ctx) {
 			}
 			// R3 wiring
 			get := func(f string) string {
-				if a, ok := data.(*LoadV); ok {
-					if v, ok := t.finalField(a.Addr, f); ok {
-						return ap(v)
-					}
-				}
-				if _, isPtr := data.Type().Underlying().(*types.Pointer); isPtr {
-					if v, ok := t.finalField(data, f); ok {
-						return ap(v)
-					}
-				}
-				if sl, ok := data.(*StructLitV); ok {
-					if v, ok := sl.Fields[f]; ok {
-						return ap(v)
-					}
+				if v, ok := dm.Vals[f]; ok && v != nil {
+					return ap(v)
 				}
 				return "<unset>"
 			}
@@ -1420,4 +1469,146 @@ func issuerFirst(c *Ctx, rule string) {
 	}
 	c.count(rule+"/builder-paths", n)
 	c.floor(rule+"/builder-paths", 3)
+}
+
+type tmplData struct {
+	Types map[string]string // name -> type of the field / map value
+	Vals  map[string]Val    // name -> final value
+}
+
+// templateData flattens what ".Name" resolves to in the data given to Execute.
+func templateData(t *Terminal, data Val) (*tmplData, bool) {
+	rd := newReader(t)
+	dm := &tmplData{Types: map[string]string{}, Vals: map[string]Val{}}
+	// map[string]string literal with constant keys
+	if a, ok := data.(*AllocV); ok && a.Comment == "makemap" {
+		mt, isMap := a.Type().Underlying().(*types.Map)
+		if !isMap || typeStr(mt.Key()) != "string" {
+			return nil, false
+		}
+		if _, dirty := t.St.dirty[a.Key()]; dirty {
+			return nil, false
+		}
+		if _, sym := t.St.heap["mapsym:"+a.Key()]; sym {
+			return nil, false
+		}
+		pfx := "mapkey:" + a.Key() + "["
+		for hk, kc := range t.St.heap {
+			if !strings.HasPrefix(hk, pfx) {
+				continue
+			}
+			k, isC := constString(kc.val)
+			if !isC {
+				return nil, false
+			}
+			dm.Types[k] = typeStr(mt.Elem())
+			if vc, ok := t.St.heap["map:"+strings.TrimPrefix(hk, "mapkey:")]; ok {
+				dm.Vals[k] = vc.val
+			}
+		}
+		return dm, true
+	}
+	dataT := data.Type()
+	if pt, isPtr := dataT.Underlying().(*types.Pointer); isPtr {
+		dataT = pt.Elem()
+	}
+	var walk func(v Val, tp types.Type, depth int) bool
+	walk = func(v Val, tp types.Type, depth int) bool {
+		st, ok := tp.Underlying().(*types.Struct)
+		if !ok || depth > 3 {
+			return false
+		}
+		for i := 0; i < st.NumFields(); i++ {
+			f := st.Field(i)
+			fv := rd.field(v, f.Name())
+			if f.Embedded() {
+				et := f.Type()
+				if p, isPtr := et.Underlying().(*types.Pointer); isPtr {
+					et = p.Elem()
+				}
+				if _, isStruct := et.Underlying().(*types.Struct); isStruct {
+					// promoted fields (shallower names win: filled only if not yet present)
+					sub := &tmplData{Types: map[string]string{}, Vals: map[string]Val{}}
+					save := dm
+					dm = sub
+					walk(fv, et, depth+1)
+					dm = save
+					for k, ty := range sub.Types {
+						if _, dup := dm.Types[k]; !dup {
+							dm.Types[k], dm.Vals[k] = ty, sub.Vals[k]
+						}
+					}
+					continue
+				}
+			}
+			dm.Types[f.Name()] = typeStr(f.Type())
+			dm.Vals[f.Name()] = fv
+		}
+		return true
+	}
+	if !walk(data, dataT, 0) {
+		return nil, false
+	}
+	return dm, true
+}
+
+// wholeCopyOf: ret points to a fresh array whose content is one whole-array copy of arr, taken after the last store into
+// arr on this path, element for element.
+func wholeCopyOf(t *Terminal, ret, arr Val) bool {
+	ra, ok := ret.(*AllocV)
+	if !ok {
+		return false
+	}
+	var cp *Event
+	lastArr := -1
+	for _, e := range t.St.events {
+		if e.Kind != EvStore {
+			continue
+		}
+		if e.Addr.Key() == ra.Key() {
+			if cp != nil {
+				return false
+			}
+			cp = e
+		} else if db := directBase(e.Addr); db != nil && db.Key() == ra.Key() {
+			return false // the copy is written element-wise afterwards
+		}
+		if db := directBase(e.Addr); db != nil && db.Key() == arr.Key() {
+			lastArr = e.Seq
+		}
+	}
+	if cp == nil || cp.Seq < lastArr {
+		return false
+	}
+	v := cp.Val
+	for {
+		if cv, ok := v.(*ConvV); ok {
+			v = cv.X
+			continue
+		}
+		break
+	}
+	if l, isLoad := v.(*LoadV); isLoad && l.Addr.Key() == arr.Key() {
+		return true // whole-array read of arr after its last write (checked above)
+	}
+	lit, ok := v.(*ArrayLitV)
+	if !ok {
+		return false
+	}
+	rd := newReader(t)
+	pt, ok := arr.Type().Underlying().(*types.Pointer)
+	if !ok {
+		return false
+	}
+	at, ok := pt.Elem().Underlying().(*types.Array)
+	if !ok || int(at.Len()) != len(lit.Elems) {
+		return false
+	}
+	for i, e := range lit.Elems {
+		cur := rd.en.load(t.St, mkIndexAddr(arr, intV(int64(i)), at.Elem()), at.Elem())
+		if cur.Key() != e.Key() {
+			return false
+		}
+	}
+	return true
 }
